@@ -168,7 +168,10 @@ func defsum(d dsCtx) *vk.Failure {
 		if ct.Len() != n {
 			return vk.Failf("CmplxFFT/len", "NewCmplxFFT(%d).Len()=%d", n, ct.Len())
 		}
-		tol := d.tol(n, 1, z1)
+		// The complex general-radix pass reads its twiddles from the table
+		// built by Cffti (no recurrence): no allowance for prime factors.
+		dz := dsCtx{c: c, strict: true}
+		tol := dz.tol(n, 1, z1)
 		coef := ct.Coefficients(nil, z)
 		if len(coef) != n {
 			return vk.Failf("CmplxFFT.Coefficients/length", "n=%d len=%d", n, len(coef))
@@ -181,7 +184,7 @@ func defsum(d dsCtx) *vk.Failure {
 			return f
 		}
 		back := ct.Sequence(nil, coef)
-		rtTol := d.tol(n, 1, norm1(cparts(coef))) + 2*float64(n)*tol
+		rtTol := dz.tol(n, 1, norm1(cparts(coef))) + 2*float64(n)*tol
 		if f := d.cmpC("CmplxFFT", "roundtrip-scale-n", back, func(j int) complex128 { return complex(float64(n), 0) * z[j] }, rtTol); f != nil {
 			return f
 		}
